@@ -12,8 +12,9 @@ MATCHERS = {}
 def regen_optimiser():
     """CmGen/Optimiser.lean: the control logic of optimisation.py as it reads now (the `source_*` theorems of
     CmProps/C02opt.lean identify it with the model)"""
-    from translate import optimiser
+    from translate import optimiser, api
     optimiser.generate()
+    api.generate()              # CmGen/Api.lean: make_readable as it reads now (CmProps/C02cap.lean states the property about that image)
 
 
 def judge(run, where, case, t, b, large, very, returned, ok, shown=None):
